@@ -291,9 +291,11 @@ def main(argv):
                   "args": {**args, **ob.fixed}, "obligation": ob.name,
                   "crosshair_message": r.get("message")}
             rep = native_replay(rs) if "args" in r else None
-            if rep is None and "args" not in r and "NotDeterministic" in str(r.get("message")) and not ob.pre:
-                # CrossHair saw different executions for the same decisions: the code under test keeps state from one
-                # execution to the next (class-level / module-level state).  That is not a verdict; the harness is run
+            if rep is None and "args" not in r and not ob.pre:
+                # a counterexample that cannot be replayed as it stands: CrossHair saw different executions for the same
+                # decisions (NotDeterministic: the code under test keeps class-level / module-level state from one execution
+                # to the next) or it steered a library call it models itself (e.g. `random`, shown as patch_to_return(...)).
+                # That is not a verdict; the harness is run
                 # natively, in one process, on several points of the symbolic box one after the other - a reason code from
                 # a real run is reported, otherwise the obligation stays a machinery error.
                 res_nd = native_replay({"property": pid, "kind": "points", "harness": ob.harness,
@@ -305,8 +307,8 @@ def main(argv):
                            "args_list": [{**box_point(ob, m, random.Random(seed + k)), **ob.fixed}
                                          for k, m in enumerate(["lo", "hi", "mid", "rnd", "rnd", "rnd", "lo", "hi"])],
                            "found_by": "native runs of the harness on points of the symbolic box, one after the other in one process, "
-                                       "after CrossHair reported non-deterministic executions (state kept across executions)"}
-                    violations.append((ob, rs2, res_nd["result"] + " [state kept across executions in one process]", r))
+                                       "after CrossHair gave a counterexample that cannot be replayed as it stands: " + str(r.get("message"))[:200]}
+                    violations.append((ob, rs2, res_nd["result"] + " [native runs on box points, one process]", r))
                 else:
                     machinery.append(f"{ob.name}: CrossHair: {r.get('message')} (native points in one process: no violation)")
             elif rep is None and "args" not in r:
@@ -391,8 +393,10 @@ def main(argv):
         "wall_s": round(wall, 2),
         "violations": len(violations),
     }
-    os.makedirs(os.path.join(VERIF, "evidence"), exist_ok=True)
-    json.dump(ev, open(os.path.join(VERIF, "evidence", f"{pid}.json"), "w"), indent=1, default=str)
+    # (VERIF_EVIDENCE_DIR: runs against scratch worktrees with seeded changes write their evidence elsewhere)
+    ev_dir = os.environ.get("VERIF_EVIDENCE_DIR") or os.path.join(VERIF, "evidence")
+    os.makedirs(ev_dir, exist_ok=True)
+    json.dump(ev, open(os.path.join(ev_dir, f"{pid}.json"), "w"), indent=1, default=str)
     print(f"{pid} {tier}: obligations={n_oblig} discharged={discharged} inconclusive={len(inconclusive)} "
           f"violations={len(violations)} paths={total_paths} smt_queries={smt_queries} wall={wall:.0f}s exit={rc}")
     return rc
